@@ -50,6 +50,14 @@ def cases(tier, seed, phase):
                         if all(c != '250' for c in tup):
                             dev['data'] = '554'
                         yield {'kind': 'smtp', 'lmtp': lmtp, 'pipelining': pipelining, 'nr': nr, 'dev': dev}
+    # the same recipient listed twice (positions 0 and 1 carry one address; the peer answers both alike)
+    for lmtp in (False, True):
+        for pipelining in (True, False):
+            for a, b in itertools.product(['250', '450', '550'], repeat=2):
+                dev = {'rcpt0': a, 'rcpt1': a, 'rcpt2': b}
+                if a != '250' and b != '250':
+                    dev['data'] = '554'
+                yield {'kind': 'smtp', 'lmtp': lmtp, 'pipelining': pipelining, 'nr': 3, 'dev': dev, 'dupaddr': True}
     for c in ('refused', 'timeout'):
         yield {'kind': 'smtp', 'lmtp': False, 'pipelining': True, 'nr': 1, 'dev': {}, 'connect': c}
     for eight in (True, False):
@@ -141,10 +149,11 @@ def run_attempt(relay, env, watchdog=4.0):
     return 'table:' + ','.join([c] * len(env.recipients)) if c == 'ok' else 'returned-error-object:' + c
 
 
-def make_env(nr, body8bit=False, utf8addr=None):
+def make_env(nr, body8bit=False, utf8addr=None, dupaddr=False):
     from slimta.envelope import Envelope
     env = Envelope('s\xe9nder@example.com' if utf8addr == 'sender' else 'sender@example.com',
-                   [('rcpt%d@ex\xe4mple.com' if (utf8addr == 'rcpt' and i == nr - 1) else 'rcpt%d@example.com') % i for i in range(nr)])
+                   [('rcpt%d@ex\xe4mple.com' if (utf8addr == 'rcpt' and i == nr - 1) else 'rcpt%d@example.com') % (0 if dupaddr and i == 1 else i)
+                    for i in range(nr)])
     body = b'test body\r\n' if not body8bit else 'h\xe9llo\r\n'.encode('utf-8')
     env.parse(b'From: sender@example.com\r\nContent-Type: text/plain; charset="utf-8"\r\nMIME-Version: 1.0\r\n\r\n' + body)
     return env
@@ -315,7 +324,7 @@ def run_smtp(case, model):
         kw['binary_encoder'] = encode_base64
     cls = StaticLmtpRelay if case['lmtp'] else StaticSmtpRelay
     relay = cls('peer.example', 25, **kw)
-    env = make_env(case['nr'], bool(case.get('body8bit')), case.get('utf8addr'))
+    env = make_env(case['nr'], bool(case.get('body8bit')), case.get('utf8addr'), bool(case.get('dupaddr')))
     res = run_attempt(relay, env)
     for p, g in peers:
         g.kill(block=False)
@@ -363,6 +372,8 @@ def run_smtp(case, model):
             if decisive and not case['lmtp'] and all(v[:1] in '235' for v in dev.values()) and dev.get('ehlo', '250') != '500':
                 hits.append(hit('c11.5xx-not-permanent.smtp', 'a 5xx outcome for the whole message is reported as transient', observed=res, expected=dev))
     tags = ['lmtp' if case['lmtp'] else 'smtp', 'pipelining' if case['pipelining'] else 'no-pipelining', 'nr=%d' % case['nr'], res.split(':')[0]]
+    if case.get('dupaddr'):
+        tags.append('duplicate-recipient')
     return mismatch, hits, tags
 
 
